@@ -171,7 +171,7 @@ func stackTopAddr(f *ssa.Function, addr ssa.Value) (string, *types.Named) {
 		return "", nil
 	}
 	st, ok := fa.X.Type().Underlying().(*types.Pointer).Elem().Underlying().(*types.Struct)
-	if !ok || st.Field(fa.Field).Name() != "current" {
+	if !ok || core.FieldName(st, fa.Field) != "current" {
 		return "", nil
 	}
 	outer, ok := fa.X.(*ssa.FieldAddr)
@@ -183,14 +183,14 @@ func stackTopAddr(f *ssa.Function, addr ssa.Value) (string, *types.Named) {
 		return "", nil
 	}
 	ost := outer.X.Type().Underlying().(*types.Pointer).Elem().Underlying().(*types.Struct)
-	return ost.Field(outer.Field).Name(), n
+	return core.FieldName(ost, outer.Field), n
 }
 
 func hasPushPop(n *types.Named) bool {
 	ms := types.NewMethodSet(types.NewPointer(n))
 	hasPush, hasPop := false, false
 	for j := 0; j < ms.Len(); j++ {
-		switch ms.At(j).Obj().Name() {
+		switch methodName(ms.At(j).Obj()) {
 		case "push":
 			hasPush = true
 		case "pop":
@@ -1088,7 +1088,7 @@ func stickyFail(p *core.Prog, r *core.Result, in map[string]bool) {
 			r.Undecided(".STICKY-FAIL", pk+".(*Parser).Write", "push-mode entry point not found")
 			continue
 		}
-		nc, _ := sp.Members[failStateConst[pk]].(*ssa.NamedConst)
+		nc := p.Const(pk, failStateConst[pk])
 		if nc == nil {
 			r.Undecided(".STICKY-FAIL", pk+"."+failStateConst[pk], "failure-state constant not found")
 			continue
